@@ -126,7 +126,8 @@ impl StateSpace for SO2StateSpace {
 
     /// Modifies the state by clamping each of its values to the space's bounds.
     fn enforce_bounds(&self, state: &mut Self::StateType) {
-        state.normalise();
+        // `normalise` returns the normalised copy; it does not modify `state` in place.
+        *state = state.normalise();
 
         if self.satisfies_bounds(state) {
             return;
